@@ -1,20 +1,36 @@
 #!/bin/sh
-# usage: tools/mutant_matrix.sh [ids...]   for every seeded/<id>: apply patch.diff to /repo, run the quick check of the property it
-# breaks (meta.json "property"; plus any in meta.json "also_checks"), revert, and print one line per (mutant, check).
+# usage: [VERIF_REPO=<checkout>] tools/mutant_matrix.sh [ids...]
+# For every seeded/<id>: apply patch.diff to the checkout (default /repo; a scratch copy when VERIF_REPO is set, e.g. under
+# `vp run --with-repo` where VERIF_REPO=$VP_RUN_REPO), run the quick check of the property it breaks (meta.json "property"; plus
+# any in meta.json "also_checks"), revert, and print one line per (mutant, check).  Writes seeded/RESULTS.md.
 cd "$(dirname "$0")/.."
-if [ -n "$(git -C /repo status --porcelain)" ]; then echo "/repo is not clean"; exit 3; fi
+REPO=${VERIF_REPO:-/repo}
+export VERIF_REPO=$REPO
+[ "$REPO" != "/repo" ] && export PYTHONPATH=$REPO
+if [ -n "$(git -C $REPO status --porcelain)" ]; then echo "$REPO is not clean"; exit 3; fi
 IDS="$@"; [ -z "$IDS" ] && IDS=$(ls seeded | grep -v '\.md$')
+OUT=seeded/RESULTS.md
+echo "| mutant | check | result | detail |" > $OUT.tmp
+echo "|---|---|---|---|" >> $OUT.tmp
 for m in $IDS; do
   P=seeded/$m/patch.diff
   PROPS=$(/venv/bin/python -c "import json;d=json.load(open('seeded/$m/meta.json'));print(' '.join([d['property']]+d.get('also_checks',[])))" 2>/dev/null | grep -v conda)
-  if ! git -C /repo apply --check "$PWD/$P" 2>/dev/null; then echo "$m: PATCH-DOES-NOT-APPLY"; continue; fi
-  git -C /repo apply "$PWD/$P"
+  if ! git -C $REPO apply --check "$PWD/$P" 2>/dev/null; then echo "$m: PATCH-DOES-NOT-APPLY"; echo "| $m | - | patch no longer applies | |" >> $OUT.tmp; continue; fi
+  git -C $REPO apply "$PWD/$P"
   for id in $PROPS; do
-    OUT=$(./check $id --tier quick 2>&1); RC=$?
-    V=$(echo "$OUT" | grep '^VIOLATION' | head -1 | cut -c1-160)
+    O=$(./check $id --tier quick 2>&1); RC=$?
+    V=$(echo "$O" | grep '^VIOLATION' | head -1 | cut -c1-160)
+    S=$(echo "$O" | grep '^\[' | tail -1 | sed 's/^\[[^]]*\] //' | cut -c1-150)
     echo "$m: check=$id rc=$RC $V"
+    case "$V" in
+      *no-failing-input-found*) R="caught (obligation / correspondence broken, no failing input found)";;
+      VIOLATION*) R="caught (failing input replayed)";;
+      *) R="MISSED (rc=$RC)";;
+    esac
+    echo "| $m | $id | $R | $S |" >> $OUT.tmp
   done
-  git -C /repo checkout -- .
+  git -C $REPO checkout -- .
 done
-# leave evidence as produced on the clean tree
+mv $OUT.tmp $OUT
 git checkout -- evidence 2>/dev/null
+rm -rf replays
